@@ -710,6 +710,70 @@ def run_type(t):
     return ';'.join(out)
 
 
+def run_inh(types, vals, cls):
+    """a container class hierarchy (several bases allowed) built from annotations; the flattened fields the library derives
+    (`cls.fields()`), then type-level and value-level facts of the derived class.  Every class of the hierarchy is exercised
+    (sizes, default, encoding) BEFORE its subclasses are created, as client code with a class hierarchy does."""
+    tys = [mk_type(t) for t in types[1:]]
+    vs = vals[1:]
+    out = []
+
+    def put(k, val):
+        out.append('%s=%s' % (k, val))
+
+    def build(c):
+        bases = tuple(build(b) for b in c[1][1:])
+        ann = {a[0]: tys[int(a[1])] for a in c[2:]}
+        _cont_counter[0] += 1
+        K = type('Inh%d' % (_cont_counter[0] % 3), bases or (Container,), {'__annotations__': ann})
+        for f in (lambda: K.fields(), lambda: K.is_fixed_byte_length(), lambda: K.min_byte_length(), lambda: K.max_byte_length(),
+                  lambda: K.type_byte_length(), lambda: K().encode_bytes(), lambda: K().value_byte_length(), lambda: list(K()),
+                  lambda: K().to_obj(), lambda: K.decode_bytes(K().encode_bytes()), lambda: K().hash_tree_root(),
+                  lambda: K.default_node().merkle_root(), lambda: [K.key_to_static_gindex(k) for k in K.fields()]):
+            try:
+                f()
+            except Exception:
+                pass
+        return K
+    try:
+        D = build(cls)
+    except Exception:
+        return 'p.fields=err'
+
+    def idx(T):
+        for i, x in enumerate(tys):
+            if x is T:
+                return i
+        return -1
+    put('p.fields', E(lambda: ','.join('%s:%d' % (k, idx(T)) for k, T in D.fields().items())))
+    put('p.fixed', E(lambda: str(int(D.is_fixed_byte_length()))))
+    put('p.flen', E(lambda: str(D.type_byte_length())))
+    put('p.min', E(lambda: str(D.min_byte_length())))
+    put('p.max', E(lambda: str(D.max_byte_length())))
+    put('p.droot', E(lambda: hexr(D.default_node())))
+    put('p.dflt', E(lambda: '%s/%s/%d' % (D().hash_tree_root().hex(), D().encode_bytes().hex(), D().value_byte_length())))
+
+    def value():
+        names = list(D.fields().keys())
+        kw = {k: mk_val(types[1:][idx(T)], vs[idx(T)]) for k, T in D.fields().items()}
+        x = D(**kw)
+        b = x.encode_bytes()
+        y = D.decode_bytes(b)
+        st = io.BytesIO()
+        cnt = x.serialize(st)
+        o = x.to_obj()
+        z = D.from_obj(o)
+        flags = [list(o.keys()) == names, y.hash_tree_root() == x.hash_tree_root(), z.hash_tree_root() == x.hash_tree_root(),
+                 st.getvalue() == b and cnt == len(b),
+                 all(getattr(x, k).hash_tree_root() == kw[k].hash_tree_root() for k in names),
+                 [e.hash_tree_root() for e in x] == [kw[k].hash_tree_root() for k in names],
+                 all(x.get_backing().getter(D.key_to_static_gindex(k)).merkle_root() == kw[k].hash_tree_root() for k in names)]
+        return '%s/%s/%d/%s/%s' % (x.hash_tree_root().hex(), b.hex(), x.value_byte_length(),
+                                   json.dumps(o, separators=(',', ':')), ''.join(str(int(f)) for f in flags))
+    put('p.value', E(value))
+    return ';'.join(out)
+
+
 def run_tsize(t):
     """type-level size facts only (also for types whose values are astronomically large)"""
     T = mk_type(t)
@@ -1604,6 +1668,8 @@ def run_case(line):
         return run_type(c[1])
     if k == 'tsize':
         return run_tsize(c[1])
+    if k == 'inh':
+        return run_inh(c[1], c[2], c[3])
     if k == 'tnav':
         return run_tnav(c[1])
     if k == 'hist':
